@@ -275,6 +275,12 @@ WOPNFile *WOPN_LoadBankFromMem(void *mem, size_t length, int *error)
             SET_ERROR(WOPN_ERR_NEWER_VERSION);
             return NULL;
         }
+        if(version == 0)
+        {
+            /* there is no version 0: a value loaded as such could not be saved back */
+            SET_ERROR(WOPN_ERR_BAD_MAGIC);
+            return NULL;
+        }
         GO_FORWARD(2);
     }
 
@@ -388,6 +394,8 @@ int WOPN_LoadInstFromMem(OPNIFile *file, void *mem, size_t length)
         version = toUint16LE(cursor);
         if(version > wopn_latest_version)
             return WOPN_ERR_NEWER_VERSION;
+        if(version == 0)
+            return WOPN_ERR_BAD_MAGIC; /* there is no version 0 */
         GO_FORWARD(2);
     }
 
